@@ -171,3 +171,57 @@ def delimiter_membership_rule(prog, ctx, rule, L=None):
                      key="delim-blank-excluded")
     if n == 0:
         ctx.inconclusive(rule, "the delimiter decision", f.where, "no assignment from strchr(delim, ..) found in the line loop")
+
+
+C_BLANKS = (" ", "\t", "\n", "\v", "\f", "\r")
+
+
+def blank_set_rule(prog, ctx, rule):
+    """What the parser calls a blank is what isspace() calls one in the C locale: blank, \t, \n, \v, \f, \r.  A classifier of the
+    library's own (a chain `c == ' ' || c == '\t' || ...`, as a helper or a macro replacing isspace()) must cover the same six: with a
+    smaller set a form feed or vertical tab between key and text is part of the NAME, and the missing-delimiter / continuation
+    decisions are taken on another character than before."""
+    n = 0
+    for f in list(prog.functions.values()):
+        if f.body is None:
+            continue
+        for top in f.walk():
+            if top.k != "BinaryOperator" or top.j.get("op") != "||" or (top.parent is not None and top.parent.strip().k == "BinaryOperator"
+                                                                         and top.parent.strip().j.get("op") == "||"):
+                continue
+            var, chars, pure = None, set(), True
+
+            def parts(e):
+                e2 = e.strip()
+                if e2.k == "BinaryOperator" and e2.j.get("op") == "||":
+                    return parts(e2.children[0]) + parts(e2.children[1])
+                return [e2]
+            for pt in parts(top):
+                if pt.k == "BinaryOperator" and pt.j.get("op") == "==":
+                    a, b = pt.children[0], pt.children[1]
+                    for x, y in ((a, b), (b, a)):
+                        cv = y.const_value()
+                        if isinstance(cv, int) and 0 < cv < 128 and y.strip().k == "CharacterLiteral":
+                            v9 = render(x)
+                            if var is None or var == v9:
+                                var = v9
+                                chars.add(chr(cv))
+                            else:
+                                pure = False
+                            break
+                    else:
+                        pure = False
+                else:
+                    pure = False
+            if not pure or not {" ", "\t"} <= chars or not chars <= set(C_BLANKS):
+                continue
+            n += 1
+            missing = [c for c in C_BLANKS if c not in chars]
+            if missing:
+                ctx.fail(rule, "%s: a blank is what isspace() says" % f.name, top.where,
+                         "`%s` stands for a blank test but leaves out %s: a key followed by such a character swallows it (and the text behind it) into its name, "
+                         "no delimiter is missed and no error reported" % (render(top)[:70], ", ".join(repr(c) for c in missing)), key="blank-set:%s" % f.name)
+            else:
+                ctx.ok(rule, "%s: a blank is what isspace() says" % f.name, top.where, "all six characters of the C locale")
+    if n == 0:
+        ctx.ok(rule, "a blank is what isspace() says", "lib/", "no classifier of the library's own: <ctype.h> everywhere")
